@@ -12,9 +12,12 @@
     `Index.write` is body `[write.., close]`, `hW = [close]`, `hC = [close]`.
   * One transition = one system call of one actor (`open(O_EXCL)`, `write`, `flush`, `fsync`,
     `stat`, `chmod`, `rename`, `unlink`), which either executes atomically or fails with an
-    injected error (`fault = true`).  Everything the Python code does between two system calls
-    (flag updates, closing the file object, guards, exception propagation into the caller's
-    handler) is folded into the transition that precedes it (`settle`).
+    injected error (`fault = true`).  Closing the Python file object
+    (`self._file.close()`, whose implicit flush can fail — this is how a PERSISTENT write error
+    shows up a second time inside abort()) is a step of its own, taken only while the file object
+    is still open.  Everything else the Python code does between two calls (flag updates, guards,
+    exception propagation into the caller's handler) is folded into the transition that precedes
+    it (`settle`).
   * The *program* (`Program`) — order of the calls in `close()`, which of them sit inside the
     `try … finally: self.abort()`, whether `_closed` is set right after the rename, the guards —
     is not hard-coded: `gitFile` is assembled from `Gen/Lock.lean`, which the translator
@@ -36,6 +39,8 @@ structure Program where
   markClosedOnReplace : Bool          -- `self._closed = True` right after the rename (dd7ffc5)
   guardAbort : Bool                   -- abort(): `if self._closed: return`
   abortRemoves : Bool                 -- abort(): `os.remove(self._lockfilename)`
+  abortCloseInTry : Bool              -- abort(): `try: self._file.close() finally: <unlink>` (the unlink
+                                      --   runs even when closing the file object raises)
   deriving Repr, DecidableEq
 
 def hasFclose (l : List (PreCall × Bool)) : Bool := l.any (fun p => p.1 == .fclose)
@@ -60,7 +65,8 @@ def gitFile : Program :=
     finallyAbort := Gen.Lock.finallyAbort
     markClosedOnReplace := Gen.Lock.markClosedOnReplace
     guardAbort := Gen.Lock.guardAbort
-    abortRemoves := Gen.Lock.abortRemoves }
+    abortRemoves := Gen.Lock.abortRemoves
+    abortCloseInTry := Gen.Lock.abortCloseInTry }
 
 /-- the program before dd7ffc5: `finally: self.abort()` ran with `_closed` still false after a
 successful rename -/
@@ -86,7 +92,9 @@ inductive Pc where
   | wr (d : Bytes)                                         -- `self._file.write(d)`
   | pre (c : PreCall) (inTry : Bool) (rest : List (PreCall × Bool))  -- in close(), before the rename
   | replace                                                -- in close(): `os.replace(lock, f)`
+  | fcClose (pending : Bool)   -- in close()'s abort(): `self._file.close()` (only when still open)
   | rmClose (pending : Bool)   -- in close()'s abort(): `os.remove(lock)`; pending = an exception is in flight
+  | fcAbort                                                -- in abort(): `self._file.close()` (only when still open)
   | rmAbort                                                -- in abort(): `os.remove(lock)`
   | done
   deriving DecidableEq, Repr
@@ -110,21 +118,22 @@ structure Actor where
   written : Bytes         -- everything successfully written through the handle = content of `Ino.of i`
   committed : Option Bytes  -- `written` at the moment its rename succeeded
   rmFailed : Bool         -- an `os.remove` of this actor failed with an injected error
+  fcFailed : Bool         -- closing the file object inside abort() raised and the unlink was skipped
   deriving Repr, DecidableEq
 
 def Actor.init (fsyncOn permOn : Bool) (body hW hC : List Op) : Actor :=
   { fsyncOn, permOn, hW, hC, pc := .start, todo := body, inHandler := false,
     opened := false, fopen := false, closed := false,
-    owns := false, written := [], committed := none, rmFailed := false }
+    owns := false, written := [], committed := none, rmFailed := false, fcFailed := false }
 
 /-- Walk through the calls of close() that precede the rename until one that is a system call for
 this handle: `fsync` is skipped without `fsync=True`, `stat`/`chmod` without `shared_perm`,
-`fclose` only closes the file object. -/
+`fclose` (closing the Python file object: its implicit flush can fail) when it is closed already. -/
 def enterClose (a : Actor) : List (PreCall × Bool) → Actor
   | [] => { a with pc := .replace }
   | (c, t) :: rest =>
     match c with
-    | .fclose => enterClose { a with fopen := false } rest
+    | .fclose => if a.fopen then { a with pc := .pre c t rest } else enterClose a rest
     | .fsync => if a.fsyncOn then { a with pc := .pre c t rest } else enterClose a rest
     | .stat => if a.permOn then { a with pc := .pre c t rest } else enterClose a rest
     | .chmod => if a.permOn then { a with pc := .pre c t rest } else enterClose a rest
@@ -139,8 +148,9 @@ def settle (P : Program) (a : Actor) : List Op → Actor
     else enterClose { a with todo := rest } P.closePre
   | .abort :: rest =>
     if P.guardAbort && a.closed then settle P a rest
-    else if P.abortRemoves then { a with fopen := false, pc := .rmAbort, todo := rest }
-    else settle P { a with fopen := false, closed := true } rest
+    else if a.fopen then { a with pc := .fcAbort, todo := rest }
+    else if P.abortRemoves then { a with pc := .rmAbort, todo := rest }
+    else settle P { a with closed := true } rest
 
 /-- An exception leaves the current API call: the caller's handler `h` runs (once). -/
 def raise (P : Program) (a : Actor) (h : List Op) : Actor :=
@@ -151,11 +161,21 @@ def raise (P : Program) (a : Actor) (h : List Op) : Actor :=
 def afterClose (P : Program) (a : Actor) (pending : Bool) : Actor :=
   if pending then raise P a a.hC else settle P a a.todo
 
+/-- abort() inside close(), after `self._file.close()`: the unlink -/
+def unlinkInClose (P : Program) (a : Actor) (pending : Bool) : Actor :=
+  if P.abortRemoves then { a with pc := .rmClose pending }
+  else afterClose P { a with closed := true } pending
+
 /-- `self.abort()` called from inside close() (the `finally`) -/
 def abortInClose (P : Program) (a : Actor) (pending : Bool) : Actor :=
   if P.guardAbort && a.closed then afterClose P a pending
-  else if P.abortRemoves then { a with fopen := false, pc := .rmClose pending }
-  else afterClose P { a with fopen := false, closed := true } pending
+  else if a.fopen then { a with pc := .fcClose pending }
+  else unlinkInClose P a pending
+
+/-- abort() called by the caller, after `self._file.close()`: the unlink -/
+def unlinkInAbort (P : Program) (a : Actor) : Actor :=
+  if P.abortRemoves then { a with pc := .rmAbort }
+  else settle P { a with closed := true } a.todo
 
 /-- a call of close() before the rename failed -/
 def preFail (P : Program) (a : Actor) (inTry : Bool) : Actor :=
@@ -178,7 +198,8 @@ def Out.name : Out → String
 /-- name of the system call an actor at `pc` issues (for the correspondence) -/
 def Pc.call : Pc → String
   | .start => "open-x" | .wr _ => "write" | .pre c _ _ => c.name | .replace => "replace"
-  | .rmClose _ => "remove" | .rmAbort => "remove" | .done => "-"
+  | .rmClose _ => "remove" | .rmAbort => "remove" | .fcClose _ => "fclose" | .fcAbort => "fclose"
+  | .done => "-"
 
 /-- One system call of one actor.  `lockThere`: does `f.lock` exist right now.  `fault`: the call
 raises an injected error instead of executing. -/
@@ -194,7 +215,9 @@ def actorStep (P : Program) (a : Actor) (lockThere fault : Bool) : Actor × Eff 
     else if !a.fopen then (raise P a a.hW, .none, .valueError)
     else (settle P { a with written := a.written ++ d } a.todo, .none, .ok)
   | .pre c t rest =>
-    if fault then (preFail P a t, .none, .injected)
+    if fault then
+      -- (CPython closes the descriptor even when the file object's close() raises)
+      (preFail P (match c with | .fclose => { a with fopen := false } | _ => a) t, .none, .injected)
     else match c with
       | .flush =>
         if !a.fopen then (preFail P a t, .none, .valueError) else (enterClose a rest, .none, .ok)
@@ -211,11 +234,24 @@ def actorStep (P : Program) (a : Actor) (lockThere fault : Bool) : Actor × Eff 
       let a1 := { a with owns := false, committed := some a.written,
                          closed := a.closed || P.markClosedOnReplace }
       ((if P.finallyAbort then abortInClose P a1 false else settle P a1 a1.todo), .replace, .ok)
+  | .fcClose pending =>
+    if fault then
+      -- `self._file.close()` inside abort() raised: without the try/finally the unlink is skipped and
+      -- this new exception leaves close() with the lock file still on disk
+      ((if P.abortCloseInTry then unlinkInClose P { a with fopen := false } true
+        else raise P { a with fopen := false, fcFailed := true } a.hC), .none, .injected)
+    else (unlinkInClose P { a with fopen := false } pending, .none, .ok)
   | .rmClose pending =>
     if fault then (raise P { a with rmFailed := true } a.hC, .none, .injected)
     else
       (afterClose P { a with owns := false, closed := true } pending,
        (if lockThere then .remove else .none), (if lockThere then .ok else .noent))
+  | .fcAbort =>
+    if fault then
+      -- abort() raises towards the caller (which ends the script); the unlink only runs with the try/finally
+      ((if P.abortCloseInTry then unlinkInAbort P { a with fopen := false, todo := [] }
+        else { a with fopen := false, fcFailed := true, pc := .done, todo := [] }), .none, .injected)
+    else (unlinkInAbort P { a with fopen := false }, .none, .ok)
   | .rmAbort =>
     if fault then ({ a with rmFailed := true, pc := .done, todo := [] }, .none, .injected)
     else
